@@ -10,6 +10,7 @@ theory).
 import RosedVerif.Model.InstAFacts
 import RosedVerif.Model.LinesLemmas
 import RosedVerif.Model.Totality2
+import RosedVerif.Model.WrapFits
 namespace RosedVerif.Props
 open RosedVerif
 
@@ -77,6 +78,12 @@ theorem C18_twoColumns_partial (ed : Editor Int) (p : Int) (l r : List Int) (g w
     (∃ x, ed.insertTwoColumnsOpts cxA p l r g w pct o = .ok x) ∨
       ed.insertTwoColumnsOpts cxA p l r g w pct o = .error .repeatNeg :=
   insertTwoColumnsOpts_ok_or cxA_Sane ed p l r g w pct o
+
+/-- InsertTwoColumnsOpts is total on arbitrary code-point texts for every gap ≥ 0, every width, every
+percentage (the wrapped left lines fit their column by sub-additivity, so the spacer count is ≥ 0) -/
+theorem C18_twoColumns (ed : Editor Int) (p : Int) (l r : List Int) (g w : Int) (pct : Pct) (o : Options Int)
+    (hg : 0 ≤ g) : ∃ x, ed.insertTwoColumnsOpts cxA p l r g w pct o = .ok x :=
+  insertTwoColumnsOpts_total_A ed p l r g w pct o hg
 
 /-- at cluster level (one token per cluster) two-column layout is total outright -/
 theorem C18_twoColumns_clusters {α : Type} [DecidableEq α] (cx : Ctx α)
